@@ -126,6 +126,12 @@ def run (s : Store) (ops : List Op) : Store := ops.foldl step s
 def alloc (s : Store) (name : Str) (attrs : Attrs) : Store × Nat :=
   (⟨s.cells ++ [⟨none, [], name, attrs⟩]⟩, s.n)
 
+/-- `Node(nm, parent=v)`: a fresh node attached under `v`; a refused attachment (duplicate sibling
+    name, missing `v`) leaves the fresh cell unlinked (in Python the constructor raises and the
+    object is dropped) -/
+def grow (s : Store) (v : Nat) (nm : Str) : Store :=
+  setParent (alloc s nm []).1 (alloc s nm []).2 (some v)
+
 def shiftCell (k : Nat) (c : Cell) : Cell :=
   { c with parent := c.parent.map (· + k), children := c.children.map (· + k) }
 
